@@ -63,3 +63,10 @@ Definition import_xsd_c (doc:xsddoc) : proj :=
   import_xsd tname_c fname_c unesc_c xprim_word_c native_c is_complex_c doc.
 Definition xsd_case := (xsddoc * proj)%type.
 Definition xsd_ok (c:xsd_case) : bool := proj_eqb (import_xsd_c (fst c)) (snd c).
+
+(* ---------------- endpoints: parameters ---------------- *)
+Require Import Verif.Foreign.EndpointSpec.
+Definition import_endpoints_c : list oendpoint -> list (bs * epproj) :=
+  import_endpoints safe_name_cur unesc_c map_type_c native_c.
+Definition ep_case := (list oendpoint * list (bs * epproj))%type.
+Definition ep_ok (c:ep_case) : bool := assoc_eqb epproj_eqb (import_endpoints_c (fst c)) (snd c).
